@@ -48,6 +48,7 @@ type shape struct {
 	Kind       string // what a well-formed body looks like
 	PasswordOf string // the user whose password endpoint this is ("" = none; "\x00" never matches)
 	PwShape    bool
+	AnyPw      bool // that user's stored password is of type "wildcard": any presented password is the current one
 	May404     bool // the path does not exist: 404 is an acceptable refusal
 	Soft       bool // acceptance is never asserted (only refusal of insufficient credentials)
 }
@@ -86,6 +87,8 @@ func buildShapes(fx *fixture, tg *target) []*shape {
 	grp("user-unknown-sub", "/.users/"+u.Name+"/.unknown", "other", true)
 	s = grp("other-user-password", "/.users/"+o.Name+"/.password", "password", false)
 	s.PasswordOf, s.PwShape = o.Name, true
+	s = grp("wildcard-password-user-password", "/.users/"+tg.Home.AnyPw+"/.password", "password", false)
+	s.PasswordOf, s.PwShape, s.AnyPw = tg.Home.AnyPw, true, true
 	grp("nonexistent-user", "/.users/MRKnouser", "user", true)
 	s = grp("nonexistent-user-password", "/.users/MRKnouser/.password", "password", true)
 	s.PasswordOf, s.PwShape = "MRKnouser", true
@@ -133,6 +136,7 @@ func buildShapes(fx *fixture, tg *target) []*shape {
 type cred struct {
 	Class string
 	Hdr   map[string]string
+	Basic bool // a well-formed Basic authorisation: some user name and password are presented
 
 	GlobalAdmin bool // the server administrator of config.json with the right password
 
@@ -162,6 +166,7 @@ func (w *world) buildCreds(fx *fixture, tg *target) []*cred {
 	add(&cred{Class: "malformed-basic", Hdr: map[string]string{"Authorization": "Basic !!!not-base64!!!"}})
 	add(&cred{Class: "wrong-password-global-admin", Hdr: vsrv.Basic(w.srv.AdminUser, w.newSecret("wrong-password"))})
 	add(&cred{Class: "global-admin-password-under-other-name", Hdr: vsrv.Basic("MRKnotroot", w.srv.AdminPass)})
+	add(&cred{Class: "config-user-without-admin-permission", Hdr: vsrv.Basic(confOperator, confOperatorPass)})
 	add(&cred{Class: "wrong-password-" + pfx + "group-admin", Hdr: vsrv.Basic(home.Users["adm"].Name, w.newSecret("wrong-password"))})
 	add(&cred{Class: pfx + "group-admin-name-with-global-admin-password", Hdr: vsrv.Basic(home.Users["adm"].Name, w.srv.AdminPass)})
 	for _, k := range home.Order {
@@ -227,6 +232,9 @@ func (w *world) buildCreds(fx *fixture, tg *target) []*cred {
 	add(&cred{Class: "jwt-admin-unsigned", Hdr: bearer(signJWT(nil, home.HSKid, "none", map[string]any{
 		"sub": "MRKjwtsubject", "aud": "http://galene.test/group/" + tg.Group + "/", "permissions": []string{"admin"},
 		"iat": now.Add(-time.Hour).Unix(), "exp": now.Add(day).Unix()}))})
+	for _, c := range cs {
+		c.Basic = strings.HasPrefix(c.Hdr["Authorization"], "Basic ") && c.Class != "malformed-basic"
+	}
 	return cs
 }
 
@@ -272,6 +280,9 @@ func judge(c *cred, s *shape, tg *target) int {
 			return unspec
 		}
 		return yes
+	}
+	if s.AnyPw && c.Basic && !(c.UserAdmin && c.UserGroup == s.Group) {
+		return unspec // some password is presented, and every password is that user's current one
 	}
 	if c.UserGroup != "" {
 		if auto && c.UserGroup == tg.Home.Name {
@@ -384,6 +395,11 @@ func (m *matrixRun) one(s *shape, method string, c *cred, n int, noneAccepted *b
 		}
 	}()
 	id := method + ":" + s.Name + ":" + c.Class
+	if s.AnyPw && suff == no {
+		// one signature for the whole corner: nothing is presented at all (no header, a bearer
+		// token, garbage) at the password endpoint of a user whose password has type "wildcard"
+		id = "any:" + s.Name + ":no-password-presented"
+	}
 	if err != nil {
 		w.count("transport_errors", 1)
 		if suff == no && method != "OPTIONS" {
@@ -422,6 +438,10 @@ func (m *matrixRun) one(s *shape, method string, c *cred, n int, noneAccepted *b
 		refused := st == 401 || (st == 404 && s.May404)
 		if refused {
 			w.count("insufficient_refused", 1)
+		} else if s.AnyPw && st == 405 {
+			// same corner, but the method is not allowed anyway: the witnesses reported under
+			// the collapsed signature are the requests that were carried out
+			w.count("wildcard_password_corner_405_instead_of_401", 1)
 		} else {
 			if c.Class == "none" {
 				*noneAccepted = true
